@@ -127,7 +127,8 @@ class Runner:
                 elif op == "dmm_add":
                     seq.add_dmm_detuning(cfg.real_pulses[c["p"] - 1].detuning, name_of(c["nm"]), c["proto"])
                 elif op == "magfield":
-                    seq.set_magnetic_field(*((0.0, 0.0, 0.0) if c["zero"] else (0.0, 0.0, 30.0)))
+                    seq.set_magnetic_field(*((0.0, 0.0, 0.0) if c["zero"]
+                                             else [(0.0, 0.0, 30.0), (1.0, 2.0, 0.5), (30.0, 0.0, 0.0)][c.get("b", 0)]))
                 else:
                     raise AssertionError(f"unknown op {op}")
             return "ok", ret
